@@ -4,7 +4,7 @@
     Python [float(decimal string)], [a + b], [a * b], [a / b] on finite doubles are
     [fl] of the exact result (CPython's dtoa and the hardware are correctly rounded). *)
 From Coq Require Import ZArith QArith Lia.
-Open Scope Z_scope.
+Local Open Scope Z_scope.
 
 Definition round_half_even (n d : Z) : Z :=   (* n >= 0, d > 0 *)
   let q := n / d in
